@@ -652,6 +652,9 @@ class AstToCfg(ast.NodeVisitor):
     self.cfgs = {}
 
     self.lexical_scopes = []
+    # Try statements whose except clauses are being visited: still guarded by
+    # their finally block, but no longer by their own handlers.
+    self.handler_scopes = []
 
   def _enter_lexical_scope(self, node):
     self.lexical_scopes.append(node)
@@ -672,7 +675,8 @@ class AstToCfg(ast.NodeVisitor):
   def _get_enclosing_except_scopes(self, stop_at):
     included = []
     for node in reversed(self.lexical_scopes):
-      if isinstance(node, ast.Try) and node.handlers:
+      if (isinstance(node, ast.Try) and node.handlers and
+          node not in self.handler_scopes):
         included.extend(node.handlers)
       if isinstance(node, stop_at):
         break
@@ -937,18 +941,21 @@ class AstToCfg(ast.NodeVisitor):
       self.builder.new_cond_branch(block_representative)
       self.builder.exit_cond_section(block_representative)
 
-    self._exit_lexical_scope(node)
-
     if node.handlers:
       # Using node would be inconsistent. Using the first handler node is also
       # inconsistent, but less so.
       block_representative = node.handlers[0]
       self.builder.enter_cond_section(block_representative)
+      # Jumps inside an except clause still pass through the finally block.
+      self.handler_scopes.append(node)
       for block in node.handlers:
         self.builder.new_cond_branch(block_representative)
         self.visit(block)
+      self.handler_scopes.pop()
       self.builder.new_cond_branch(block_representative)
       self.builder.exit_cond_section(block_representative)
+
+    self._exit_lexical_scope(node)
 
     if node.finalbody:
       self.builder.enter_finally_section(node)
